@@ -29,10 +29,15 @@ func (p *P0x8800) ReplyProtocol() consts.JT808CommandType {
 
 func (p *P0x8800) Parse(jtMsg *jt808.JTMessage) error {
 	body := jtMsg.Body
-	if len(body) < 5 {
+	if len(body) < 4 {
 		return protocol.ErrBodyLengthInconsistency
 	}
 	p.MultimediaID = binary.BigEndian.Uint32(body[0:4])
+	if len(body) == 4 { // 全部数据包都收到的情况 没有后续的重传字段 (Encode也是这样生成的)
+		p.AgainPackageCount = 0
+		p.AgainPackageList = nil
+		return nil
+	}
 	p.AgainPackageCount = body[4]
 	if len(body) != 5+2*int(p.AgainPackageCount) {
 		return protocol.ErrBodyLengthInconsistency
